@@ -45,7 +45,8 @@ class QGen:
             if isinstance(v, list):
                 v = self.rng.choice(v) if v else 'x'
             return v
-        return self.rng.choice(['public', 'private', 'SELECT', 'WHERE x', 'foo', '', 'a"b', 'back\\slash', 'FROM a AS b', 'café', 'x', 'in'])
+        return self.rng.choice(['public', 'private', 'SELECT', 'WHERE x', 'foo', '', 'a"b', 'back\\slash', 'FROM a AS b', 'café', 'x', 'in',
+                                'C:\\', 'ends with quote"', 'two  spaces', 'tab\there', ' lead', 'trail ', 'a \\" b   c'])
 
     def term(self, alias, kind):
         s, l, c = KINDS[kind]
@@ -138,7 +139,7 @@ class QGen:
             elif r < 0.8 and (s or l):
                 sel.append(('chain', a, rng.choice(s + l)))
             else:
-                sel.append(('str', lit(rng.choice(['hello', 'a"q', 'x, y', 'SELECT', '']))))
+                sel.append(('str', lit(rng.choice(['hello', 'a"q', 'x, y', 'SELECT', '', 'dir\\', 'wide   gap', 'q\\"  x']))))
         return dict(preds=preds, frm=frm, where=w, select=sel)
 
 
